@@ -380,3 +380,4 @@ func TestVerifFinding_C20_EnableSemiSyncMasterStateIncomplete(t *testing.T) {
 		t.Fatalf("VIOLATION C20: updating the active nodes panicked while r2 joins the HA group and the master's state is incomplete (master_first_adjust_ss_order): panic: %v [%s]", p, where)
 	}
 }
+
